@@ -620,7 +620,7 @@ def parse_function(lines, crate=None):
                 continue
             m = _re_dbg.match(line)
             if m:
-                f.debug[m.group(1)] = m.group(2)
+                f.debug.setdefault(m.group(1), m.group(2))
                 continue
             m = _re_bb.match(line)
             if m:
